@@ -1,4 +1,135 @@
-(** C04 placeholder while the refinement proof is being written *)
-From GH Require Import Base.Prelude Model.Store Model.StoreSpec.
-Theorem C04_placeholder : True. Proof. exact I. Qed.
-Print Assumptions C04_placeholder.
+(** C04 — Store is a gap-free chain Tail..Head with consistent height and hash lookups.
+
+    Setting.  [c : N -> hdr] is one chain over the heights [1, U] with
+    [chain_hyps c U]: U < 2^64 - 1, [h_height (c n) = n], hashes injective,
+    [h_prev (c (n+1)) = h_id (c n)], [h_prev (c 1)] is no hash of the chain.
+    A history [ops : list iop] is any sequence of
+      [IAppend ns]            Append of the chain headers of the heights [ns]
+                              (any order, gaps, repeats; heights in [1, U]: [op_ok]),
+      [IDelete from to nh fails]  DeleteRange(from, to) with [nh] OnDelete handlers failing
+                              (error or panic) at the scripted (handler, height) pairs,
+      [IRestart] / [IReopen]  Stop; Start on the same object / on a new Store over the datastore,
+    applied by the model [Model/Store.v] ([run c (st0 b) ops], batch size [b], every
+    operation at write-queue quiescence = after Store.Sync) and, in parallel, by the abstract
+    specification [Model/StoreSpec.v] ([run_spec spec0 ops]: the set of stored heights and
+    the two ends of the contiguous run).  The 2Q caches are not part of the model state
+    (see Model/Store.v); the harness runs cache sizes 1, 2, 8, 512 against it. *)
+From Coq Require Import NArith List Bool.
+From stdpp Require Import gmap.
+From GH Require Import Base.Prelude Model.Store Model.StoreSpec Oracle.StoreCase.
+From GH Require Import Proofs.StoreP Proofs.StoreMainP Proofs.StoreC04P.
+Import ListNotations.
+Open Scope N_scope.
+
+(** Refinement: after every history every read of the store — Head, Tail, Height,
+    GetByHeight (all heights), Get by hash, Has, HasAt, GetRange (all ranges) — equals the
+    same read of the specification state reached by the same operations. *)
+Theorem C04_refines_spec : forall c U, chain_hyps c U -> forall b ops, Forall (op_ok U) ops ->
+  let s := run c (st0 b) ops in
+  let sp := run_spec spec0 ops in
+  headp s = option_map (fun th => c (snd th)) (sHT sp) /\
+  tailp s = option_map (fun th => c (fst th)) (sHT sp) /\
+  hsh s = spec_height sp /\
+  (forall n, get_by_height s n = spec_gbh c sp n) /\
+  (forall n, inr U n -> get s (h_id (c n)) = spec_get c sp n) /\
+  (forall n, inr U n -> has s (h_id (c n)) = bool_decide (n ∈ sS sp)) /\
+  (forall n, has_at s n = spec_has_at sp n) /\
+  (forall from to, get_range s from to = spec_range c sp from to).
+Proof. exact history_refines. Qed.
+
+(** Tail <= Head (and both pointers are set or unset together) *)
+Theorem C04_tail_le_head : forall c U, chain_hyps c U -> forall b ops, Forall (op_ok U) ops ->
+  let s := run c (st0 b) ops in
+  (headp s = None <-> tailp s = None) /\
+  (forall hd tl, headp s = Some hd -> tailp s = Some tl -> 1 <= h_height tl /\ h_height tl <= h_height hd).
+Proof. exact @hist_tail_le_head. Qed.
+
+(** every height in [Tail, Head] is returned by GetByHeight with that exact height,
+    Get(hash) returns the same header, Has and HasAt say yes *)
+Theorem C04_range_retrievable : forall c U, chain_hyps c U -> forall b ops, Forall (op_ok U) ops ->
+  let s := run c (st0 b) ops in
+  forall hd tl, headp s = Some hd -> tailp s = Some tl ->
+  forall n, h_height tl <= n <= h_height hd ->
+  get_by_height s n = Found (c n) /\ h_height (c n) = n /\ get s (h_id (c n)) = Found (c n) /\
+  has s (h_id (c n)) = true /\ has_at s n = true.
+Proof. exact @hist_range_retrievable. Qed.
+
+(** HasAt is exactly membership in [Tail, Head] *)
+Theorem C04_has_at_iff : forall c U, chain_hyps c U -> forall b ops n, Forall (op_ok U) ops ->
+  let s := run c (st0 b) ops in
+  has_at s n = true <->
+  exists hd tl, headp s = Some hd /\ tailp s = Some tl /\ n <> 0 /\ h_height tl <= n <= h_height hd.
+Proof. exact @hist_has_at_iff. Qed.
+
+(** Has, Get by hash and GetByHeight agree on every height; Get never errs *)
+Theorem C04_lookups_agree : forall c U, chain_hyps c U -> forall b ops n, Forall (op_ok U) ops -> inr U n ->
+  let s := run c (st0 b) ops in
+  (has s (h_id (c n)) = true <-> get s (h_id (c n)) = Found (c n)) /\
+  (get s (h_id (c n)) = Found (c n) <-> get_by_height s n = Found (c n)) /\
+  (get s (h_id (c n)) = Found (c n) \/ get s (h_id (c n)) = NotFound).
+Proof. exact @hist_lookups_agree. Qed.
+
+(** GetRange / GetRangeByHeight return exactly the requested consecutive heights, or an error *)
+Theorem C04_get_range_exact : forall c U, chain_hyps c U -> forall b ops from to l, Forall (op_ok U) ops ->
+  let s := run c (st0 b) ops in
+  get_range s from to = Found l ->
+  from < to /\ l = map c (seqN from (N.to_nat (to - from))) /\
+  map h_height l = seqN from (N.to_nat (to - from)).
+Proof. exact @hist_get_range_exact. Qed.
+
+(** Height() = Head().Height() (0 when the store is empty) *)
+Theorem C04_height_is_head : forall c U, chain_hyps c U -> forall b ops, Forall (op_ok U) ops ->
+  let s := run c (st0 b) ops in
+  hsh s = match headp s with Some hd => h_height hd | None => 0 end.
+Proof. exact @hist_height_is_head. Qed.
+
+(** Head is the top (Tail the bottom) of the contiguous run: the next height is not stored,
+    i.e. Head does not move past a gap *)
+Theorem C04_head_is_top_of_run : forall c U, chain_hyps c U -> forall b ops, Forall (op_ok U) ops ->
+  let s := run c (st0 b) ops in
+  (forall hd h, headp s = Some hd -> get_by_height s (h_height hd + 1) <> Found h) /\
+  (forall tl h, tailp s = Some tl -> get_by_height s (h_height tl - 1) <> Found h).
+Proof. exact @hist_head_is_top. Qed.
+
+(** ... and never moves down on Append: together with [C04_range_retrievable] and
+    [C04_head_is_top_of_run] the new Head is the top of the run above the old Head, so it
+    advances by itself once a gap is filled *)
+Theorem C04_append_head_monotone : forall c U, chain_hyps c U -> forall b ops ns hd,
+  Forall (op_ok U) ops -> Forall (inr U) ns ->
+  headp (run c (st0 b) ops) = Some hd ->
+  exists hd', headp (run c (st0 b) (ops ++ [IAppend ns])) = Some hd' /\ h_height hd <= h_height hd'.
+Proof. exact @append_head_monotone. Qed.
+
+(** every appended header is readable by height and by hash right after the Append, for every
+    batch size (whether it sits in the write batch or the datastore) *)
+Theorem C04_appended_readable : forall c U, chain_hyps c U -> forall b ops ns n,
+  Forall (op_ok U) ops -> Forall (inr U) ns -> In n ns ->
+  let s := run c (st0 b) (ops ++ [IAppend ns]) in
+  get_by_height s n = Found (c n) /\ get s (h_id (c n)) = Found (c n) /\ has s (h_id (c n)) = true.
+Proof. exact @appended_readable. Qed.
+
+(** non-vacuity: an infinite chain satisfying the hypotheses, and a history with a gap that is
+    filled later, a head-side delete, a restart *)
+Definition c04_chain : N -> hdr := simple_chain.   (* Hdr false 1 n 0 (n + 1) n true *)
+
+Example C04_chain_hyps_inhabited : chain_hyps c04_chain 1000000.
+Proof. exact (simple_chain_hyps 1000000 eq_refl). Qed.
+
+Example C04_history :
+  let ops := [IAppend [5; 7]; IAppend [3; 6]; IDelete 7 8 1 []; IReopen; IAppend [8; 4]] in
+  let s := run c04_chain (st0 2) ops in
+  option_map h_height (headp s) = Some 6 /\ option_map h_height (tailp s) = Some 3 /\ hsh s = 6 /\
+  get_by_height s 8 = Found (c04_chain 8) /\ get_by_height s 7 = Blocks /\ get_by_height s 4 = Found (c04_chain 4) /\
+  sHT (run_spec spec0 ops) = Some (3, 6).
+Proof. vm_compute. repeat split. Qed.
+
+Print Assumptions C04_refines_spec.
+Print Assumptions C04_tail_le_head.
+Print Assumptions C04_range_retrievable.
+Print Assumptions C04_has_at_iff.
+Print Assumptions C04_lookups_agree.
+Print Assumptions C04_get_range_exact.
+Print Assumptions C04_height_is_head.
+Print Assumptions C04_head_is_top_of_run.
+Print Assumptions C04_append_head_monotone.
+Print Assumptions C04_appended_readable.
